@@ -209,3 +209,23 @@ package eval
 //@   loop 3 invariant prepare: allocated(roots) && Context.roots.arr != roots.arr && 0 - 1 <= rangeindex#2 && phase <= 2 && Context != nil && fresh(roots) && (phase < 2 ==> Context.Errors == nil) && (forall j int :: 0 <= j && j < len(roots) ==> select(dslDone, roots[j])) && (forall j int :: 0 <= j && j <= rangeindex#2 ==> select(prepDone, roots[j])) && 0 <= n0 && (forall i int :: 0 <= i && i < n0 ==> (exists p int :: 0 <= p && p < len(roots) && roots[p] == old(Context.roots[i]))) && rootsOwn && allocated(Context) && !valFailed
 //@   loop 4 invariant validate: allocated(roots) && Context.roots.arr != roots.arr && 0 - 1 <= rangeindex#3 && phase <= 3 && Context != nil && fresh(roots) && (forall j int :: 0 <= j && j < len(roots) ==> select(dslDone, roots[j])) && (forall j int :: 0 <= j && j < len(roots) ==> select(prepDone, roots[j])) && (forall j int :: 0 <= j && j <= rangeindex#3 ==> select(valDone, roots[j])) && 0 <= n0 && (forall i int :: 0 <= i && i < n0 ==> (exists p int :: 0 <= p && p < len(roots) && roots[p] == old(Context.roots[i]))) && rootsOwn && allocated(Context) && (valFailed ==> Context.Errors != nil)
 //@   loop 5 invariant finalize: allocated(roots) && Context.roots.arr != roots.arr && 0 - 1 <= rangeindex#4 && Context != nil && fresh(roots) && (phase < 4 ==> Context.Errors == nil) && (forall j int :: 0 <= j && j < len(roots) ==> select(dslDone, roots[j])) && (forall j int :: 0 <= j && j < len(roots) ==> select(prepDone, roots[j])) && (forall j int :: 0 <= j && j < len(roots) ==> select(valDone, roots[j])) && (forall j int :: 0 <= j && j <= rangeindex#4 ==> select(finDone, roots[j])) && 0 <= n0 && (forall i int :: 0 <= i && i < n0 ==> (exists p int :: 0 <= p && p < len(roots) && roots[p] == old(Context.roots[i]))) && rootsOwn && allocated(Context) && !valFailed && phase <= 4
+
+// runSet: "execute every DSL function": every expression of the set that has a DSL is handed to Execute,
+// whatever the size of the set (the guard against runaway generation cannot stop a finite set early).
+// Environment: executing a DSL does not overwrite the entries of the set being run (it may append to it).
+//@ ghost spec var dslRan (Array Iface Bool)
+//@ iface goa.design/goa/v3/eval.Source.DSL
+//@   params s
+//@   modifies nothing
+//@ func runSet
+//@   params set
+//@   locals executed
+//@   property C11
+//@   callspec Execute params fn def
+//@       ensures dslRan == store(old(dslRan), def, true)
+//@       ensures forall i int :: 0 <= i && i < len(set) ==> set[i] == old(set[i])
+//@       modifies all
+//@   ensures* every.expression.executed: forall i int :: 0 <= i && i < len(set) && set[i] != nil && implements(set[i], Source) ==> select(dslRan, set[i])
+//@   loop 1 invariant progress: 0 <= executed && executed <= len(set) && (forall i int :: 0 <= i && i < executed && set[i] != nil && implements(set[i], Source) ==> select(dslRan, set[i]))
+//@   loop 2 invariant progress: 0 <= executed && executed <= len(set) && len(ranged(2)) <= len(set) && executed == len(set) - len(ranged(2)) + rangeindex + 1 && ranged(2).arr == set.arr && ranged(2).off == set.off + (len(set) - len(ranged(2))) && (forall i int :: 0 <= i && i < executed && set[i] != nil && implements(set[i], Source) ==> select(dslRan, set[i]))
+//@   modifies all
